@@ -19,8 +19,8 @@ package stream
 //          the state at the end of the call's critical section.  (Two first joiners; joiner vs remover; joiner vs
 //          switch.)  Goroutines in WaitForReaders are started before.
 //   race   The driver holds the write lock, starts 2-6 calls of every kind (incl. WriteUnit of the current / a replaced
-//          sub-stream, OutboundBytes, WaitForReaders, Close), checks that each is waiting for the mutex (Close: has
-//          returned) and that nothing has changed, releases: the calls race on all processors; all must return.
+//          sub-stream, OutboundBytes, WaitForReaders, Close), checks that each is waiting for the mutex and that
+//          nothing has changed, releases: the calls race on all processors; all must return.
 //   rhold  The driver holds the READ lock: WriteUnit / OutboundBytes return; a call that needs the write lock waits,
 //          and so do the read-lock calls started after it (writer preference); nothing changes until the release.
 
@@ -520,6 +520,11 @@ func (c *vC40SCase) randWriterOp(firstJoin bool) *vC40SOp {
 
 // a call that takes the read lock
 func (c *vC40SCase) randReaderOp() *vC40SOp {
+	if !c.closed && c.rnd.Chance(1, 10) { // Close() reads the RTSP streams under the read lock
+		c.closed = true
+		c.feat["close"] = true
+		return c.newOp("close", 0, false)
+	}
 	if c.rnd.Chance(1, 4) {
 		c.feat["stats"] = true
 		return c.newOp("stats", 0, false)
@@ -754,9 +759,9 @@ func (c *vC40SCase) runRace() {
 		}
 		before := vC40SSigOf(mu)
 		c.spawn(op)
-		if op.kind == "close" || op.kind == "wait" {
-			// neither needs the mutex: Close() returns; WaitForReaders() returns iff hasReaders is closed already
-			if op.kind == "close" || base.closed {
+		if op.kind == "wait" {
+			// does not need the mutex: WaitForReaders() returns iff hasReaders is closed already
+			if base.closed {
 				c.waitDone([]*vC40SOp{op})
 			}
 			continue
